@@ -9,6 +9,9 @@ import types
 from . import dsched
 
 
+CLOCK = [0.0]   # virtual time used when no scheduler is active (synchronous drivers)
+
+
 class Kernel:
     def __init__(self):
         self.fds = {}
@@ -65,6 +68,7 @@ class FakeSocket:
         self.calls = []
         self.blocking = True
         self.blocked = 0  # sends refused with EWOULDBLOCK
+        self.last_io = CLOCK[0]
 
     # --- harness side ---
     def deliver(self, data):
@@ -132,6 +136,8 @@ class FakeSocket:
             self.room -= n
         self.wire += data[:n]
         self.sent_log.append(n)
+        if n:
+            self.last_io = CLOCK[0]
         return n
 
     def recv(self, n):
@@ -142,6 +148,7 @@ class FakeSocket:
         if f == "eof":
             return b""
         if self.inbox:
+            self.last_io = CLOCK[0]
             d = self.inbox.pop(0)
             if len(d) > n:
                 self.inbox.insert(0, d[n:])
@@ -396,7 +403,7 @@ class FakeTime:
 
     def time(self):
         S = dsched.S
-        return 1000000.0 + (S.clock if S is not None else 0.0)
+        return 1000000.0 + (S.clock if S is not None else CLOCK[0])
 
     def sleep(self, n):
         S = dsched.S
